@@ -1338,7 +1338,7 @@ def _ode_tdvp():
         r = ctx.rnd
         a = {"which": r.choice(("tdvp1site", "tdvp2site", "tdvp", "krylov")), "step_size": round(r.uniform(0.01, 0.2), 3),
              "number_of_steps": r.choice((0, 1, 1, 2)), "normalize": r.choice((0, 0, 2)), "threshold": r.choice((1e-12, 1e-6)),
-             "max_rank": r.choice((50, 3)), "dimension": r.randint(2, 3)}
+             "max_rank": r.choice((50, 3, 1)), "dimension": r.randint(2, 3)}
         return {"op": "ode_tdvp", "in": {"operator": o, "initial_value": x}, "dest": ctx.dest(3), "args": a}
 
     def execute(run, rec, A, g):
